@@ -20,13 +20,20 @@ open Bxh Bxh.Exec Bxh.Lifecycle
 /-- **source side**: a request whose (local) source service is missing or not available is rejected -/
 theorem C16_unavailable_source_rejected (env : Env) (l : Led) (i : Ibtp) (src dst : SvcId)
     (hf : i.frm = some src) (ht : i.to = some dst) (hreq : i.typ.isRequest = true) (hloc : isLocal env src = true)
+    (hn : isNotification l src dst i = some false)
     (hs : ∀ s, getSvc l env.cache src.chain src.sid = some s → s.available = false) :
     checkIBTP env l i = .error "1080007" := by
   unfold checkIBTP
-  simp only [hf, ht, hreq, hloc, if_true]
+  simp only [hf, ht, hn, hreq, hloc, if_true, Bool.not_false, Bool.and_self]
   cases h : getSvc l env.cache src.chain src.sid with
   | none => rfl
   | some s => simp [hs s h]
+
+/-- (the hypothesis `hn`: the request is not one handed back with the destination hub's notice, which starts no interchange —
+inside one hub there is no such thing) -/
+theorem isNotification_local (l : Led) (src dst : SvcId) (i : Ibtp) (h : src.bxh = dst.bxh) :
+    isNotification l src dst i = some false := by
+  simp [isNotification, h]
 
 /-- **destination side, what makes the target unusable**: a local, non-hub destination service
 that is missing, unavailable, or blacklists the source yields the target error (the request is then
@@ -46,71 +53,60 @@ theorem C16_target_error_iff (env : Env) (l : Led) (src dst : SvcId)
       · simp [ha, hb]
     · simp [ha]
 
-/-- **an accepted request has an available source, and a destination recorded for execution
-(no target error) exists, is available and does not block the source** -/
+/-- for a request (no notice) the target error is the one `checkTargetAvailability` answers -/
+theorem checkIBTP_request_target {env : Env} {l : Led} {i : Ibtp} {ck : Checked} (h : checkIBTP env l i = .ok ck)
+    (hreq : i.typ.isRequest = true) (hn : ck.notice = false) : ck.targetErr = (checkTarget env l ck.src ck.dst).2 := by
+  have hresp := C02.isResponse_of_isRequest hreq
+  unfold checkIBTP at h
+  repeat' (first | (cases h <;> simp_all) | split at h | simp only at h)
+
+/-- where an accepted request comes from: an available local service, or a service of another BitXHub that is a registered,
+available relay chain here, addressed to a local service -/
+theorem checkIBTP_request_source {env : Env} {l : Led} {i : Ibtp} {ck : Checked} (h : checkIBTP env l i = .ok ck)
+    (hreq : i.typ.isRequest = true) (hn : ck.notice = false) :
+    (isLocal env ck.src = true ∧ ∃ s, getSvc l env.cache ck.src.chain ck.src.sid = some s ∧ s.available = true) ∨
+    (isLocal env ck.src = false ∧ isLocal env ck.dst = true ∧ env.cfg.hubs.contains ck.src.bxh = true) := by
+  have hresp := C02.isResponse_of_isRequest hreq
+  unfold checkIBTP at h
+  repeat' (first | (cases h <;> simp_all) | split at h | simp only at h)
+
+/-- **an accepted request (one that starts an interchange: no notice) comes from an available local service — or from a BitXHub
+registered here as an available relay chain —, and a destination recorded for execution (no target error) exists, is available
+and does not block the source** -/
 theorem C16_accepted_request_is_gated (env : Env) (l : Led) (i : Ibtp) (ck : Checked)
-    (h : checkIBTP env l i = .ok ck) (hreq : i.typ.isRequest = true) :
-    isLocal env ck.src = true ∧
-    (∃ s, getSvc l env.cache ck.src.chain ck.src.sid = some s ∧ s.available = true) ∧
+    (h : checkIBTP env l i = .ok ck) (hreq : i.typ.isRequest = true) (hn : ck.notice = false) :
+    ((isLocal env ck.src = true ∧ ∃ s, getSvc l env.cache ck.src.chain ck.src.sid = some s ∧ s.available = true) ∨
+     (isLocal env ck.src = false ∧ isLocal env ck.dst = true ∧ env.cfg.hubs.contains ck.src.bxh = true)) ∧
     ((isLocal env ck.dst = true ∧ (ck.dst.chain == ck.dst.bxh) = false ∧ ck.targetErr = false) →
       ∃ d, getSvc l env.cache ck.dst.chain ck.dst.sid = some d ∧ d.available = true ∧ d.blacklist.contains ck.src = false) := by
-  unfold checkIBTP at h
-  split at h
-  · cases h
-  · rename_i src hsrc
-    split at h
-    · cases h
-    · rename_i dst hdst
-      simp only [hreq, if_true] at h
-      split at h
-      · rename_i hloc
-        split at h
-        · cases h
-        · rename_i sv hsv
-          split at h
-          · cases h
-          · rename_i hav
-            have hav' : sv.available = true := by simpa using hav
-            generalize hct : checkTarget env l src dst = ct at h
-            obtain ⟨b, t⟩ := ct
-            simp only at h
-            have key : ∀ ck', ck' = ({ src := src, dst := dst, ic := getIC l src, isBatch := b, targetErr := t } : Checked) →
-                isLocal env ck'.src = true ∧
-                (∃ s, getSvc l env.cache ck'.src.chain ck'.src.sid = some s ∧ s.available = true) ∧
-                ((isLocal env ck'.dst = true ∧ (ck'.dst.chain == ck'.dst.bxh) = false ∧ ck'.targetErr = false) →
-                  ∃ d, getSvc l env.cache ck'.dst.chain ck'.dst.sid = some d ∧ d.available = true ∧ d.blacklist.contains ck'.src = false) := by
-              intro ck' hck
-              subst hck
-              refine ⟨hloc, ⟨sv, hsv, hav'⟩, ?_⟩
-              intro ⟨hl, hh, hte⟩
-              simp only at hl hh hte
-              have hiff := C16_target_error_iff env l src dst hl hh
-              rw [hct] at hiff
-              simp only at hiff
-              subst hte
-              cases hd : getSvc l env.cache dst.chain dst.sid with
-              | none =>
-                exfalso
-                have := hiff.mpr (by intro s hs; rw [hd] at hs; cases hs)
-                cases this
-              | some d =>
-                refine ⟨d, rfl, ?_, ?_⟩
-                · cases hda : d.available with
-                  | true => rfl
-                  | false =>
-                    have := hiff.mpr (by intro s hs; rw [hd] at hs; cases hs; exact Or.inl hda)
-                    cases this
-                · cases hdb : d.blacklist.contains src with
-                  | false => rfl
-                  | true =>
-                    have := hiff.mpr (by intro s hs; rw [hd] at hs; cases hs; exact Or.inr hdb)
-                    cases this
-            split at h
-            · split at h
-              · cases h
-              · cases h; exact key _ rfl
-            · cases h; exact key _ rfl
-      · split at h <;> cases h
+  refine ⟨checkIBTP_request_source h hreq hn, ?_⟩
+  intro ⟨hl, hh, hte⟩
+  have hiff := C16_target_error_iff env l ck.src ck.dst hl hh
+  rw [← checkIBTP_request_target h hreq hn, hte] at hiff
+  cases hd : getSvc l env.cache ck.dst.chain ck.dst.sid with
+  | none =>
+    exfalso
+    have := hiff.mpr (by intro s hs; rw [hd] at hs; cases hs)
+    cases this
+  | some d =>
+    refine ⟨d, rfl, ?_, ?_⟩
+    · cases hda : d.available with
+      | true => rfl
+      | false =>
+        have := hiff.mpr (by intro s hs; rw [hd] at hs; cases hs; exact Or.inl hda)
+        cases this
+    · cases hdb : d.blacklist.contains ck.src with
+      | false => rfl
+      | true =>
+        have := hiff.mpr (by intro s hs; rw [hd] at hs; cases hs; exact Or.inr hdb)
+        cases this
+
+/-- a request addressed to another BitXHub is recorded for execution only when that hub is a registered, available relay chain
+here; otherwise it is begin-failed -/
+theorem C16_remote_target_needs_registered_hub (env : Env) (l : Led) (src dst : SvcId) (hrem : isLocal env dst = false) :
+    (checkTarget env l src dst).2 = !env.cfg.hubs.contains dst.bxh := by
+  unfold checkTarget
+  simp [hrem]
 
 /-! ### life cycles (tables regenerated from the source) -/
 
